@@ -107,6 +107,9 @@ func (u *lendU) PoolAddr(poolID uint64) sdk.AccAddress { return u.c.ModAddr(u.Po
 // variant%3: 0 = all decimals 1e6, round prices, LTVs with one decimal (exact
 // boundaries are hit); 1 = odd prices, OSMO with 1e8 decimals; 2 = like 0 but
 // high utilisation kink (u_optimal 0.5) and larger rates so interest is large.
+// lendAppSlot is the app id the next lendUniverse gives the lend app (0/1 = first app).
+var lendAppSlot int
+
 func lendUniverse(t *testing.T, c *sim.Chain, variant int) *lendU {
 	t.Helper()
 	ctx := c.Ctx()
@@ -149,6 +152,12 @@ func lendUniverse(t *testing.T, c *sim.Chain, variant int) *lendU {
 	}
 	atom, cmst, usdc, osmo := u.ByDenom["uatom"], u.ByDenom["ucmst"], u.ByDenom["uusdc"], u.ByDenom["uosmo"]
 
+	// lendAppSlot > 1: placeholder apps are registered first so that the lend app gets that id (the lend module's
+	// reserve-funding handler and the auction module's genesis export look for generation-1 lend auctions under app
+	// id 3, the id the lend app has on the production chain)
+	for i := 1; i < lendAppSlot; i++ {
+		must(t, c.App.AssetKeeper.AddAppRecords(ctx, assettypes.AppData{Name: []string{"", "cswap", "harbor", "third", "fourth"}[i], ShortName: []string{"", "cswap", "hbr", "thrd", "frth"}[i], MinGovDeposit: sdk.NewInt(0), GovTimeInSeconds: 0, GenesisToken: []assettypes.MintGenesisToken{}}))
+	}
 	must(t, c.App.AssetKeeper.AddAppRecords(ctx, assettypes.AppData{Name: "commodo", ShortName: "cmmdo", MinGovDeposit: sdk.NewInt(0), GovTimeInSeconds: 0, GenesisToken: []assettypes.MintGenesisToken{}}))
 	apps, _ := c.App.AssetKeeper.GetApps(ctx)
 	for _, a := range apps {
